@@ -66,6 +66,12 @@ func main() {
 		for _, k := range ks {
 			fmt.Println(k, len(P.Funcs[k]))
 		}
+	case "names":
+		P := mustLoad(*repo)
+		if err := writeNames(P); err != nil {
+			fmt.Fprintln(os.Stderr, err)
+			os.Exit(2)
+		}
 	case "check":
 		onlyFilter = *only
 		os.Exit(check(*repo, *prop, *tier, *fnKey, *keep, *verbose, *noEvidence))
